@@ -169,3 +169,12 @@ Example C07_example_roundtrip :
   | _ => false
   end = true.
 Proof. vm_compute. reflexivity. Qed.
+Example C07_example_canonical :
+  match stream_tx false true ex_tx with
+  | Ret b => match decode_strict (b ++ [xee]) with Some (t, r) => bytes_eqb r [xee] && (length (tx_ins t) =? 2)%nat | None => false end
+             (* the same bytes with the input count written non-minimally (fd 02 00) are not canonical *)
+             && match decode_strict (firstn 6 b ++ [xfd; x02; x00] ++ skipn 7 b) with None => true | _ => false end
+             && match parse_tx true (firstn 6 b ++ [xfd; x02; x00] ++ skipn 7 b) with Ret (t, r) => (length (tx_ins t) =? 2)%nat | _ => false end
+  | _ => false
+  end = true.
+Proof. vm_compute. reflexivity. Qed.
